@@ -48,6 +48,7 @@ fn main() {
         Some("C16") => std::process::exit(props::c16::run(&report::parse_args(&args[1..]))),
         Some("C17") => std::process::exit(props::c17::run(&report::parse_args(&args[1..]))),
         Some("--c17-worker") => props::c17::worker(&args[1..]),
+        Some("C09") => std::process::exit(props::c09::run(&report::parse_args(&args[1..]))),
         Some("C10") => std::process::exit(props::c10::run(&report::parse_args(&args[1..]))),
         Some("C11") => std::process::exit(props::c11::run(&report::parse_args(&args[1..]))),
         Some("C12") => std::process::exit(props::c12::run(&report::parse_args(&args[1..]))),
